@@ -1,5 +1,5 @@
-\* simulation: random histories of length 12 over all 14 keys
-SPECIFICATION Spec
+\* simulation: random histories of length 12 over all 14 keys, one printed behaviour per trace
+SPECIFICATION SimSpec
 CONSTANTS
   AlphaSeq <- MCAlpha
   MaxKeyLen = 3
@@ -7,4 +7,4 @@ CONSTANTS
   Values = {1, 2}
   KeyFilter <- FilterAll
   MaxHist = 12
-CONSTRAINT Emit
+CHECK_DEADLOCK FALSE
